@@ -178,6 +178,9 @@ func runC07(c *core.Ctx) {
 		key := core.FuncKey(fn)
 		var visit ssa.CallInstruction
 		for _, ci := range core.Calls(fn) {
+			if _, isPlainCall := ci.(*ssa.Call); !isPlainCall {
+				continue // a deferred visit runs after the children
+			}
 			if cal := ci.Common().StaticCallee(); cal != nil && cal.Name() == "visit" {
 				visit = ci
 			}
